@@ -23,7 +23,7 @@ LEVEL = "proof"
 LEAN = ["SaVerif.Props.C42"]
 META = {
     "text": "Lean theorems for every class tree (given by ancestor chains), every data set and every queried class: over consistently stored data the single-table, joined-table and concrete plans return exactly the objects whose class descends from the queried class, each as the class its discriminator names with that class's attribute values (polymorphic_most_specific_*, subclass_filter_*), independently of with_polymorphic; unknown / NULL discriminators and identities outside the queried subtree give the documented errors (decide_*). The model is tied to the ORM by generated hierarchies of the three kinds on SQLite: classes, values after access, error kinds and statement counts are compared, and the property itself is checked against the generated data.",
-    "note": "Statement counts after attribute access are modelled only for hierarchies without polymorphic_load='selectin'; with selectin the model predicts classes, values and the number of statements of the load itself. Modelled-not-verified: of_type(), selectin_polymorphic() option, with_polymorphic against an aliased subquery, composite keys, relationships, equal primary keys in two concrete tables, selectin chunking (500).",
+    "note": "Known findings (unchanged tree): re-executing the identical, cached select(M) after a subclass of M was mapped later returns the stale row set (single table) or raises AttributeError (joined); the generated late-mapping histories therefore run their second round uncached. Statement counts after attribute access are modelled only for hierarchies without polymorphic_load='selectin'; with selectin the model predicts classes, values and the number of statements of the load itself. Modelled-not-verified: of_type(), selectin_polymorphic() option, with_polymorphic against an aliased subquery, composite keys, relationships, equal primary keys in two concrete tables, selectin chunking (500).",
     "technique": "Lean 4 proofs over list-level relational plans + differential execution of generated inheritance hierarchies on SQLite",
     "design_ref": "DESIGN.md §3 C40-C42",
 }
@@ -38,87 +38,122 @@ def ancs_of(parent):
     return out
 
 
-def build(kind, parent, selectin=()):
-    """map the class tree imperatively; returns (registry, classes, tables)"""
-    from sqlalchemy import Column, ForeignKey, Integer, String, Table
-    from sqlalchemy.orm import registry
-    from sqlalchemy.sql.expression import literal_column  # noqa: F401
-    from sqlalchemy.orm import polymorphic_union
+PKCOLS = ["id", "id2", "id3"]
 
-    n = len(parent)
-    anc = ancs_of(parent)
-    sub = [[d for d in range(n) if c in anc[d]] for c in range(n)]
-    reg = registry()
-    md = reg.metadata
-    classes = []
-    for c in range(n):
-        base = (object,) if parent[c] is None else (classes[parent[c]],)
-        classes.append(type("K%d" % c, base, {}))
-    mappers = [None] * n
-    tables = {}
-    if kind == "single":
-        t = Table("t", md, Column("id", Integer, primary_key=True), Column("type", String), *[Column("a%d" % c, Integer) for c in range(n)])
-        tables["t"] = t
+
+def pk_of(mid, npk):
+    """model id -> primary key tuple (composite keys are digits of the model id)"""
+    if npk == 1:
+        return (mid,)
+    if npk == 2:
+        return (mid // 10, mid % 10)
+    return (mid // 100, (mid // 10) % 10, mid % 10)
+
+
+def mid_of(pk):
+    n = 0
+    for p in pk:
+        n = n * 10 + p if len(pk) > 1 else p
+    return n
+
+
+class Mapping:
+    """the class tree mapped imperatively; classes [0, upto) are mapped at construction, the
+    rest by extend() (late subclasses of already configured - possibly already queried - mappers)"""
+
+    def __init__(self, kind, parent, selectin=(), npk=1, upto=None):
+        from sqlalchemy import Column, ForeignKeyConstraint, Integer, String, Table
+        from sqlalchemy.orm import registry
+
+        self.kind, self.parent, self.selectin, self.npk = kind, parent, selectin, npk
+        n = len(parent)
+        self.anc = ancs_of(parent)
+        self.sub = [[d for d in range(n) if c in self.anc[d]] for c in range(n)]
+        self.reg = registry()
+        md = self.reg.metadata
+        pkc = PKCOLS[:npk]
+        self.classes = []
         for c in range(n):
-            kw = dict(polymorphic_identity="c%d" % c, include_properties=["id", "type"] + ["a%d" % x for x in anc[c]])
-            if c in selectin:
-                kw["polymorphic_load"] = "selectin"
-            if parent[c] is None:
-                mappers[c] = reg.map_imperatively(classes[c], t, polymorphic_on=t.c.type, **kw)
-            else:
-                mappers[c] = reg.map_imperatively(classes[c], None, inherits=mappers[parent[c]], **kw)
-    elif kind == "joined":
-        for c in range(n):
-            if parent[c] is None:
-                tables[c] = Table("t%d" % c, md, Column("id", Integer, primary_key=True), Column("type", String), Column("a%d" % c, Integer))
-            else:
-                tables[c] = Table("t%d" % c, md, Column("id", Integer, ForeignKey("t%d.id" % parent[c]), primary_key=True), Column("a%d" % c, Integer))
+            base = (object,) if parent[c] is None else (self.classes[parent[c]],)
+            self.classes.append(type("K%d" % c, base, {}))
+        self.mappers = [None] * n
+        self.tables = {}
+        if kind == "single":
+            self.tables["t"] = Table("t", md, *[Column(k, Integer, primary_key=True, autoincrement=False) for k in pkc], Column("type", String), *[Column("a%d" % c, Integer) for c in range(n)])
+        elif kind == "joined":
+            for c in range(n):
+                if parent[c] is None:
+                    self.tables[c] = Table("t%d" % c, md, *[Column(k, Integer, primary_key=True, autoincrement=False) for k in pkc], Column("type", String), Column("a%d" % c, Integer))
+                else:
+                    self.tables[c] = Table(
+                        "t%d" % c, md, *[Column(k, Integer, primary_key=True, autoincrement=False) for k in pkc], Column("a%d" % c, Integer),
+                        ForeignKeyConstraint(pkc, ["t%d.%s" % (parent[c], k) for k in pkc]),
+                    )
+        else:
+            for c in range(n):
+                self.tables[c] = Table("t%d" % c, md, *[Column(k, Integer, primary_key=True, autoincrement=False) for k in pkc], *[Column("a%d" % x, Integer) for x in self.anc[c]])
+        self.mapped = 0
+        self.extend(n if upto is None else upto)
+
+    def extend(self, hi):
+        from sqlalchemy.orm import polymorphic_union
+
+        kind, parent, reg, anc, sub = self.kind, self.parent, self.reg, self.anc, self.sub
+        pkc = PKCOLS[: self.npk]
+        for c in range(self.mapped, hi):
             kw = dict(polymorphic_identity="c%d" % c)
-            if c in selectin:
+            if c in self.selectin and kind != "concrete":
                 kw["polymorphic_load"] = "selectin"
-            if parent[c] is None:
-                mappers[c] = reg.map_imperatively(classes[c], tables[c], polymorphic_on=tables[c].c.type, **kw)
+            if kind == "single":
+                t = self.tables["t"]
+                kw["include_properties"] = pkc + ["type"] + ["a%d" % x for x in anc[c]]
+                if parent[c] is None:
+                    self.mappers[c] = reg.map_imperatively(self.classes[c], t, polymorphic_on=t.c.type, **kw)
+                else:
+                    self.mappers[c] = reg.map_imperatively(self.classes[c], None, inherits=self.mappers[parent[c]], **kw)
+            elif kind == "joined":
+                if parent[c] is None:
+                    self.mappers[c] = reg.map_imperatively(self.classes[c], self.tables[c], polymorphic_on=self.tables[c].c.type, **kw)
+                else:
+                    self.mappers[c] = reg.map_imperatively(self.classes[c], self.tables[c], inherits=self.mappers[parent[c]], **kw)
             else:
-                mappers[c] = reg.map_imperatively(classes[c], tables[c], inherits=mappers[parent[c]], **kw)
-    else:
-        for c in range(n):
-            tables[c] = Table("t%d" % c, md, Column("id", Integer, primary_key=True), *[Column("a%d" % x, Integer) for x in anc[c]])
-        for c in range(n):
-            kw = dict(polymorphic_identity="c%d" % c)
-            if len(sub[c]) > 1:
-                pj = polymorphic_union({"c%d" % d: tables[d] for d in sub[c]}, "type", "pjoin%d" % c)
-                kw.update(with_polymorphic=("*", pj), polymorphic_on=pj.c.type)
-            if parent[c] is None:
-                mappers[c] = reg.map_imperatively(classes[c], tables[c], **kw)
-            else:
-                mappers[c] = reg.map_imperatively(classes[c], tables[c], inherits=mappers[parent[c]], concrete=True, **kw)
-    return reg, classes, tables
+                if len(sub[c]) > 1:
+                    pj = polymorphic_union({"c%d" % d: self.tables[d] for d in sub[c]}, "type", "pjoin%d" % c)
+                    kw.update(with_polymorphic=("*", pj), polymorphic_on=pj.c.type)
+                if parent[c] is None:
+                    self.mappers[c] = reg.map_imperatively(self.classes[c], self.tables[c], **kw)
+                else:
+                    self.mappers[c] = reg.map_imperatively(self.classes[c], self.tables[c], inherits=self.mappers[parent[c]], concrete=True, **kw)
+        self.mapped = hi
 
 
 def disc_str(d):
     return None if d is None else ("c%d" % d if d >= 0 else "zzz")
 
 
-def store(kind, parent, objs, corrupt, eng, tables):
+def store(kind, parent, objs, corrupt, eng, npk=1):
     """raw INSERTs; `corrupt` = {id: discriminator override (None = NULL, -1 = unknown, k = class k)}"""
     anc = ancs_of(parent)
-    n = len(parent)
+    pkc = PKCOLS[:npk]
+    q = lambda k: ",".join("?" * k)  # noqa: E731
     with eng.begin() as conn:
         for o in objs:
             oid, c, vals = o["id"], o["cls"], o["vals"]
+            pk = list(pk_of(oid, npk))
             d = corrupt.get(oid, c) if oid in corrupt else c
             if kind == "single":
-                cols = ["id", "type"] + ["a%d" % a for a in anc[c]]
-                conn.exec_driver_sql("INSERT INTO t (%s) VALUES (%s)" % (",".join(cols), ",".join("?" * len(cols))), tuple([oid, disc_str(d)] + [vals[a] for a in anc[c]]))
+                cols = pkc + ["type"] + ["a%d" % a for a in anc[c]]
+                conn.exec_driver_sql("INSERT INTO t (%s) VALUES (%s)" % (",".join(cols), q(len(cols))), tuple(pk + [disc_str(d)] + [vals[a] for a in anc[c]]))
             elif kind == "joined":
                 root = anc[c][0]
-                conn.exec_driver_sql("INSERT INTO t%d (id, type, a%d) VALUES (?,?,?)" % (root, root), (oid, disc_str(d), vals[root]))
+                cols = pkc + ["type", "a%d" % root]
+                conn.exec_driver_sql("INSERT INTO t%d (%s) VALUES (%s)" % (root, ",".join(cols), q(len(cols))), tuple(pk + [disc_str(d), vals[root]]))
                 for a in anc[c][1:]:
-                    conn.exec_driver_sql("INSERT INTO t%d (id, a%d) VALUES (?,?)" % (a, a), (oid, vals[a]))
+                    cols = pkc + ["a%d" % a]
+                    conn.exec_driver_sql("INSERT INTO t%d (%s) VALUES (%s)" % (a, ",".join(cols), q(len(cols))), tuple(pk + [vals[a]]))
             else:
-                cols = ["id"] + ["a%d" % a for a in anc[c]]
-                conn.exec_driver_sql("INSERT INTO t%d (%s) VALUES (%s)" % (c, ",".join(cols), ",".join("?" * len(cols))), tuple([oid] + [vals[a] for a in anc[c]]))
-    return n
+                cols = pkc + ["a%d" % a for a in anc[c]]
+                conn.exec_driver_sql("INSERT INTO t%d (%s) VALUES (%s)" % (c, ",".join(cols), q(len(cols))), tuple(pk + [vals[a] for a in anc[c]]))
 
 
 def canon_error(e):
@@ -142,12 +177,13 @@ def fmt_ents(ents):
     return ";".join("%d:%d:%s" % (i, c, fmt_vals(vs)) for i, c, vs in ents) if ents else "-"
 
 
-def run_query(eng, classes, parent, C, wp, counter):
+def run_query(eng, classes, parent, C, wp, counter, npk=1, nocache=False, shape=0):
     """execute select(C) under a with_polymorphic setting; returns canonical outcome"""
     from sqlalchemy import select
     from sqlalchemy.orm import Session, with_polymorphic
 
     anc = ancs_of(parent)
+    pkc = PKCOLS[:npk]
     with Session(eng) as s:
         counter[0] = 0
         if wp is None:
@@ -157,12 +193,16 @@ def run_query(eng, classes, parent, C, wp, counter):
         else:
             ent = with_polymorphic(classes[C], [classes[x] for x in wp])
         try:
-            res = s.execute(select(ent).order_by(ent.id)).scalars().all()
+            stmt = select(ent).order_by(*[getattr(ent, k) for k in pkc])
+            if shape:
+                stmt = stmt.where(ent.id >= 0)  # a differently shaped statement: not served from the compiled cache
+            opts = {"compiled_cache": None} if nocache else {}
+            res = s.execute(stmt, execution_options=opts).scalars().all()
             c1 = counter[0]
             out = []
             for o in res:
                 c = int(type(o).__name__[1:])
-                out.append((o.id, c, tuple(getattr(o, "a%d" % a) for a in anc[c])))
+                out.append((mid_of(tuple(getattr(o, k) for k in pkc)), c, tuple(getattr(o, "a%d" % a) for a in anc[c])))
             return ("ok", out, c1, counter[0] - c1)
         except Exception as e:
             return ("err", canon_error(e), None, None)
@@ -207,8 +247,14 @@ def gen_scenario(rng):
     selectin = ()
     if kind != "concrete" and rng.random() < 0.4:
         selectin = tuple(sorted(rng.sample(range(1, n), rng.randint(1, min(2, n - 1)))))
+    npk = rng.choice([1, 1, 2, 3])
+    if npk == 1:
+        ids = rng.sample(range(1, 30), rng.randint(0, 9))
+    elif npk == 2:  # digits of the model id; the first key column repeats across rows
+        ids = rng.sample([a * 10 + b for a in range(1, 4) for b in range(0, 4)], rng.randint(0, 9))
+    else:
+        ids = rng.sample([a * 100 + b * 10 + c for a in range(1, 3) for b in range(0, 3) for c in range(0, 3)], rng.randint(0, 9))
     objs = []
-    ids = rng.sample(range(1, 30), rng.randint(0, 9))
     for i in ids:
         c = rng.randrange(n)
         objs.append({"id": i, "cls": c, "vals": [rng.choice([None, 0, 1, 5, -3, 7, 12]) if rng.random() < 0.9 else None for _ in range(n)]})
@@ -226,7 +272,11 @@ def gen_scenario(rng):
                 corrupt[o["id"]] = parent[o["cls"]]  # identity of the parent class: tables of its chain all hold the row
         else:
             corrupt[o["id"]] = rng.randrange(n)  # single table: any mapped identity
-    return {"kind": kind, "parent": parent, "selectin": list(selectin), "objs": objs, "corrupt": {str(k): v for k, v in corrupt.items()}}
+    late = None
+    if kind != "concrete" and n >= 3 and rng.random() < 0.35:
+        late = rng.randint(2, n - 1)  # classes [late, n) are mapped, and their rows stored, after the first round of queries
+        corrupt = {}
+    return {"kind": kind, "parent": parent, "selectin": list(selectin), "objs": objs, "corrupt": {str(k): v for k, v in corrupt.items()}, "npk": npk, "late": late}
 
 
 def expected(parent, objs, C):
@@ -277,14 +327,37 @@ def wp_settings(rng, kind, parent, C):
     return out
 
 
+def judge(sc, kind, parent, selectin, objs, corrupt, C, wp, res, phase):
+    """(canonical line, oracle problem) for one query outcome"""
+    if res[0] == "ok":
+        line = "ok %s / %d / %s" % (fmt_ents(res[1]), res[2], "-" if selectin else str(res[3]))
+    else:
+        line = "err " + res[1]
+    why = None
+    tag = "" if phase is None else " [%s]" % phase
+    if not corrupt:
+        exp = expected(parent, objs, C)
+        if res[0] != "ok":
+            why = "select(K%d) with_polymorphic=%s on a %s hierarchy (parents %s, selectin %s, %d-column key)%s raised %s" % (C, wp, kind, parent, list(selectin), sc.get("npk", 1), tag, res[1])
+        elif res[1] != exp:
+            why = "select(K%d) with_polymorphic=%s on a %s hierarchy (parents %s, selectin %s)%s returned %s, the stored objects of that subtree are %s" % (C, wp, kind, parent, list(selectin), tag, res[1], exp)
+    else:
+        exp = expected_corrupt(kind, parent, objs, corrupt, C)
+        got = ("err", res[1]) if res[0] == "err" else ("ok", res[1])
+        if got != exp:
+            why = "select(K%d) with_polymorphic=%s on a %s hierarchy with discriminator of row %s overwritten by %s: got %s, documented outcome %s" % (C, wp, kind, list(corrupt)[0], list(corrupt.values())[0], got, exp)
+    return line, why
+
+
 def run_scenario(ctx_rng, sc):
     """returns list of (case, impl_line, request, oracle_problem_or_None)"""
     from sqlalchemy import create_engine, event
-    from sqlalchemy.orm import clear_mappers  # noqa: F401
 
     kind, parent, selectin, objs = sc["kind"], sc["parent"], tuple(sc["selectin"]), sc["objs"]
+    npk, late = sc.get("npk", 1), sc.get("late")
     corrupt = {int(k): v for k, v in sc["corrupt"].items()}
-    reg, classes, tables = build(kind, parent, selectin)
+    n = len(parent)
+    m = Mapping(kind, parent, selectin, npk, upto=late)
     eng = create_engine("sqlite://")
     counter = [0]
 
@@ -293,34 +366,68 @@ def run_scenario(ctx_rng, sc):
         counter[0] += 1
 
     out = []
+    only = sc.get("queries")
     try:
-        reg.metadata.create_all(eng)
-        store(kind, parent, objs, corrupt, eng, tables)
-        for C in range(len(parent)):
-            for wp in sc.get("queries", {}).get(str(C)) or wp_settings(ctx_rng, kind, parent, C):
-                res = run_query(eng, classes, parent, C, wp, counter)
-                case = dict(sc, C=C, wp=wp)
-                if res[0] == "ok":
-                    line = "ok %s / %d / %s" % (fmt_ents(res[1]), res[2], "-" if selectin else str(res[3]))
-                else:
-                    line = "err " + res[1]
-                why = None
-                if not corrupt:
-                    exp = expected(parent, objs, C)
-                    if res[0] != "ok":
-                        why = "select(K%d) with_polymorphic=%s on a %s hierarchy raised %s" % (C, wp, kind, res[1])
-                    elif res[1] != exp:
-                        why = "select(K%d) with_polymorphic=%s on a %s hierarchy (parents %s, selectin %s) returned %s, the stored objects of that subtree are %s" % (C, wp, kind, parent, list(selectin), res[1], exp)
-                else:
-                    exp = expected_corrupt(kind, parent, objs, corrupt, C)
-                    got = ("err", res[1]) if res[0] == "err" else ("ok", res[1])
-                    if got != exp:
-                        why = "select(K%d) with_polymorphic=%s on a %s hierarchy with discriminator of row %s overwritten by %s: got %s, documented outcome %s" % (C, wp, kind, list(corrupt)[0], list(corrupt.values())[0], got, exp)
+        m.reg.metadata.create_all(eng)
+        if late is not None:
+            # round 1: only classes [0, late) exist; every one of them is queried
+            early = [o for o in objs if o["cls"] < late]
+            store(kind, parent[:late], early, {}, eng, npk)
+            sel1 = tuple(c for c in selectin if c < late)
+            for C in range(late):
+                res = run_query(eng, m.classes, parent[:late], C, None, counter, npk)
+                line, why = judge(sc, kind, parent[:late], sel1, early, {}, C, None, res, "before the late subclasses")
+                case = dict(sc, C=C, wp=None, phase=1)
+                if only is None:
+                    out.append((case, line, requests(kind, parent[:late], sel1, early, {}, C, None), why))
+            m.extend(n)
+            store(kind, parent, [o for o in objs if o["cls"] >= late], {}, eng, npk)
+        else:
+            store(kind, parent, objs, corrupt, eng, npk)
+        for C in range(n):
+            for wp in (only.get(str(C)) if only is not None else None) or ([] if only is not None else wp_settings(ctx_rng, kind, parent, C)):
+                res = run_query(eng, m.classes, parent, C, wp, counter, npk, nocache=late is not None, shape=1 if late is not None else 0)
+                line, why = judge(sc, kind, parent, selectin, objs, corrupt, C, wp, res, "after mapping classes %s late" % list(range(late, n)) if late is not None else None)
+                case = dict(sc, C=C, wp=wp, phase=2)
                 out.append((case, line, requests(kind, parent, selectin, objs, corrupt, C, wp), why))
     finally:
         eng.dispose()
-        reg.dispose()
+        m.reg.dispose()
     return out
+
+
+def stale_cache_probe(kind="single"):
+    """the IDENTICAL statement executed before and after a late subclass is mapped: the
+    single-table criterion is baked into the cached compiled statement"""
+    from sqlalchemy import create_engine, select
+    from sqlalchemy.orm import Session
+
+    parent = [None, 0, 1]
+    m = Mapping(kind, parent, (), 1, upto=2)
+    eng = create_engine("sqlite://")
+    try:
+        m.reg.metadata.create_all(eng)
+        objs = [{"id": 1, "cls": 1, "vals": [1, 2, 3]}, {"id": 2, "cls": 2, "vals": [4, 5, 6]}]
+        store(kind, parent[:2], objs[:1], {}, eng)
+
+        def q():
+            with Session(eng) as s:
+                K1 = m.classes[1]
+                return [(o.id, int(type(o).__name__[1:])) for o in s.execute(select(K1).order_by(K1.id)).scalars()]
+
+        first = q()
+        m.extend(3)
+        store(kind, parent, objs[1:], {}, eng)
+        try:
+            second = q()
+        except Exception as e:
+            return "select(K1) re-executed from the compiled cache after K2(K1) was mapped and a K2 row stored raised %s: %s" % (type(e).__name__, str(e)[:80])
+        if second != [(1, 1), (2, 2)]:
+            return "select(K1) re-executed from the compiled cache after K2(K1) was mapped and a K2 row stored returned %s (first run %s); expected [(1, 1), (2, 2)]" % (second, first)
+        return None
+    finally:
+        eng.dispose()
+        m.reg.dispose()
 
 
 def run(ctx, deep=False):
@@ -330,18 +437,26 @@ def run(ctx, deep=False):
         "0-9 rows with NULL-able attribute values of random classes; 40% of the non-concrete hierarchies carry "
         "polymorphic_load='selectin' on 1-2 subclasses; 30% have one corrupted discriminator (unknown, NULL, identity of the "
         "parent class for joined, any identity for single table); every class is queried with with_polymorphic none, '*' and a "
-        "random subset of its descendants; a case is non-trivial when the queried class has descendants with rows"
+        "random subset of its descendants; primary keys of 1-3 columns (first column repeating); 35% of the non-concrete trees map "
+        "their last classes only after a first round of queries against every earlier class (second round uncached); a case is non-trivial when the queried class has descendants with rows"
     )
     ctx.trusted.append("statement counts after attribute access are compared only for hierarchies without polymorphic_load='selectin'")
     import warnings
 
     warnings.simplefilter("ignore")
+    for k, key in (("single", "single-late-subclass-stale-compiled-cache"), ("joined", "joined-late-subclass-cached-statement-fails")):
+        why = stale_cache_probe(k)
+        if why:
+            ctx.violation(key, {"probe": k}, why)
     nsc = 1200 if thorough else 160
     cases, impl, reqs = [], [], []
     for i in range(nsc):
         sc = gen_scenario(ctx.rng)
         results = run_scenario(ctx.rng, sc)
         ctx.count("kind=" + sc["kind"])
+        ctx.count("pk-columns=%d" % sc["npk"])
+        if sc["late"] is not None:
+            ctx.count("late-mapped-subclasses")
         if sc["selectin"]:
             ctx.count("with-selectin")
         if sc["corrupt"]:
@@ -375,9 +490,14 @@ def replay(ctx, obj):
 
     warnings.simplefilter("ignore")
     c = obj["case"]
-    sc = {k: c[k] for k in ("kind", "parent", "selectin", "objs", "corrupt")}
+    if "probe" in c:
+        why = stale_cache_probe(c["probe"] if c["probe"] in ("single", "joined") else "single")
+        print("replay C42 stale compiled cache probe -> %s" % why)
+        return why is not None
+    sc = {k: c.get(k) for k in ("kind", "parent", "selectin", "objs", "corrupt", "npk", "late")}
+    sc["npk"] = sc["npk"] or 1
     sc["queries"] = {str(c["C"]): [c["wp"]]}
-    res = [r for r in run_scenario(random.Random(0), sc) if r[0]["C"] == c["C"]]
+    res = [r for r in run_scenario(random.Random(0), sc) if r[0]["C"] == c["C"] and r[0].get("phase", 2) == 2]
     for case, line, req, why in res:
         print("replay C42 %s select(K%d) wp=%s -> %s ; oracle: %s" % (sc["kind"], case["C"], case["wp"], line, why))
     return any(r[3] for r in res)
